@@ -147,3 +147,10 @@ def search(ctx):
 def replay(ctx, case):
     from harness.props import c16_eval
     return c16_eval.replay(ctx, case)
+
+
+MANIFEST = dict(
+    text="Proof: the acceptance predicates regenerated from the source on every run (tolerances read from the isclose calls) imply the property's bounds, which are written in the Props file: accepted length is 2^n, n>=1; |sum of squares - 1| <= 1e-10, hence |norm - 1| <= 1e-10; off-norm/zero vectors rejected; isometry shapes 2^a x 2^b with b<=a; 2x2 shape for one-qubit gates; probability vectors (C16_* theorems). A loosened tolerance in the source breaks C16_accept_sumsq. Tie: translator (shape-checked extraction) + decision comparison on lengths/sums/shapes; malformed streams through every entry point are evaluated.",
+    note='Modelled, not verified: np.allclose / is_unitary_matrix orthonormality tests (numerical contracts); float log2(len).is_integer() as power-of-two test.',
+    technique='Coq proof (Q/R arithmetic) on translator-regenerated predicates with property-side bounds + decision correspondence + malformed-input evaluation',
+    design_ref='DESIGN.md section 4, C16')
